@@ -4,16 +4,16 @@ from vlib.common import Violation, Discard
 from vlib.pcheck import PCheck
 
 PID = "C23"
-RULE = ("recursion workloads (random graph + linear/non-linear transitive closure, bounded counters, mutual recursion, same-generation, "
+RULE = ("recursion workloads (random graph + linear/non-linear transitive closure, bounded counters, mutual recursion, dependency rings of 3-4 relations, same-generation, "
         "reachability with negated lower-stratum filters; 70%) and general dlgen programs with a recursive relation (30%) + `.limitsize R(n=k)` on one recursive relation R; k is drawn relative to the unlimited size "
         "s=|S| measured by the base run (k in {1..12 absolute, s-1, s, s+1, s/2, s/4, 2s+3}). Oracle: L subset of S; |S| < k => L == S; "
-        "|S| >= k => |L| >= k; no duplicate lines; the limited run uses -j1 (default), -j2 or -j4. Non-trivial = k <= |S| and the limit cut the recursion short (|L| < |S|); "
+        "|S| >= k => |L| >= k; no duplicate lines; the limited run uses -j1 (default), -j2 or -j4; the limit is written with 0-2 leading zeros. Non-trivial = k <= |S| and the limit cut the recursion short (|L| < |S|); "
         "classes also count k == s, k == s+1 and k > s; distinct by hash of (program, k).")
 
 
 def gen(ch):
     if ch.bool(0.7):
-        P = dlgen.gen_recursive(ch)
+        P = dlgen.gen_recursive(ch, ring=True)
     else:
         P = dlgen.generate(ch, dlgen.Feat(max_groups=4))
     rec = [n for n in P.order if P.rels[n].recursive and len(P.rels[n].types) > 0]
@@ -24,7 +24,7 @@ def gen(ch):
     text, facts = dlgen.to_souffle(P)
     kmode = ch.weighted([(3, "abs"), (2, "s-1"), (2, "s"), (2, "s+1"), (3, "s/2"), (1, "2s+3"), (2, "s/4")])
     kabs = ch.int(1, 12)
-    return {"program": text, "facts": facts, "rel": R, "kmode": kmode, "kabs": kabs, "args": ch.choice([[], [], ["-j4"], ["-j2"]])}
+    return {"program": text, "facts": facts, "rel": R, "kmode": kmode, "kabs": kabs, "args": ch.choice([[], [], ["-j4"], ["-j2"]]), "lead": ch.choice(["", "", "", "0", "00"])}
 
 
 def judge(case, st=None):
@@ -40,7 +40,7 @@ def judge(case, st=None):
     k = {"abs": case["kabs"], "s-1": s - 1, "s": s, "s+1": s + 1, "s/2": s // 2, "2s+3": 2 * s + 3, "s/4": s // 4}[case["kmode"]]
     if k < 1:
         k = 1
-    prog = case["program"] + ".limitsize %s(n=%d)\n" % (R, k)
+    prog = case["program"] + ".limitsize %s(n=%s%d)\n" % (R, case.get("lead") or "", k)     # (the limit is a decimal number)
     b = runner.run_program(prog, case["facts"], args=case.get("args") or [])
     runner.classify_failure(b, "limited", dict(case, program=prog))
     L = b.outputs.get(R)
